@@ -110,8 +110,12 @@ func (pe *PolicyEngine) getPoliciesSelectingPod(peer k8s.Peer, direction netv1.P
 // isPeerNodeIP returns true if peer1 is an IP address of a node and peer2 is a pod on that node
 func isPeerNodeIP(peer1, peer2 k8s.Peer) bool {
 	if peer2.PeerType() == k8s.PodType && peer1.PeerType() == k8s.IPBlockType {
+		hostIP := net.ParseIP(peer2.GetPeerPod().HostIP)
+		if hostIP == nil || hostIP.To4() == nil { // missing, unparsable or non-IPv4 host address
+			return false
+		}
 		ip2, err := netset.IPBlockFromIPAddress(peer2.GetPeerPod().HostIP)
-		if err != nil {
+		if err == nil {
 			return peer1.GetPeerIPBlock().Equal(ip2)
 		}
 	}
